@@ -11,7 +11,10 @@ import (
 	"log"
 	logslog "log/slog"
 	"os"
+	"path/filepath"
 	"reflect"
+	"runtime"
+	"strings"
 	"sort"
 	"time"
 
@@ -49,6 +52,7 @@ type W struct {
 	fired map[string]int
 
 	globalAttempt int
+	restores      []func()
 
 	ifaces      map[int]io.Writer
 	handlers    map[int]logslog.Handler
@@ -138,7 +142,7 @@ func runScenario(sc *scen.Scenario, out *bufio.Writer) {
 
 	w.attach()
 	w.applyWorldParams()
-	w.emit(scen.Event{K: "start", S: fmt.Sprintf("testing=%v level=%d", is.InTesting(), int(slog.GetLevel()))})
+	w.emit(scen.Event{K: "start", S: fmt.Sprintf("testing=%v level=%d src=%s", is.InTesting(), int(slog.GetLevel()), srcDir())})
 
 	// setup by task 0, unscheduled
 	w.sch = nil
@@ -154,6 +158,23 @@ func runScenario(sc *scen.Scenario, out *bufio.Writer) {
 	w.runOps(0, "tail", sc.Tail)
 	w.emit(scen.Event{K: "end"})
 	res.Done = true
+}
+
+// srcDir is the directory this package was compiled from (it is what the caller field of
+// records issued by the interpreter shows); scenarios refer to it as $SRCDIR, to its
+// grand-parent (the module root) as $SRCROOT.
+func srcDir() string {
+	_, file, _, _ := runtime.Caller(0)
+	return filepath.Dir(file)
+}
+
+func expandSrc(s string) string {
+	if !strings.Contains(s, "$SRC") {
+		return s
+	}
+	d := srcDir()
+	s = strings.ReplaceAll(s, "$SRCDIR", d)
+	return strings.ReplaceAll(s, "$SRCROOT", filepath.Dir(filepath.Dir(d)))
 }
 
 func (w *W) emit(e scen.Event) {
